@@ -95,3 +95,76 @@ Definition refused_write_nothing (tr : list aev) : bool :=
                     end) tr.
 
 Definition c03_pred (tr : list aev) : bool := frames_whole tr && refused_write_nothing tr.
+
+(* ---------- C09: a handler's context is cancelled only for its own cancellation or on close ----------
+   State: running handlers with the request they serve; seqnos the peer has cancelled; whether the transport is
+   closing; handlers seen cancelled. *)
+Record hstate := mkH {
+  h_running : list (Z * frame_info);   (* handler id -> request *)
+  h_peer_cancelled : list Z;           (* seqnos of cancel frames fed by the peer *)
+  h_closing : bool;
+  h_cancelled : list Z                 (* handlers whose context was observed cancelled *)
+}.
+
+Definition closing_event (e : aev) : bool :=
+  match e with ACloseBegin | AConnClose | ADone | AReadErr => true | _ => false end.
+
+Definition handler_step (s : hstate) (e : aev) : option hstate :=
+  match e with
+  | AHStart h fi => Some (mkH ((h, fi) :: h_running s) (h_peer_cancelled s) (h_closing s) (h_cancelled s))
+  | AHRet h => Some (mkH (filter (fun p => negb (fst p =? h)) (h_running s)) (h_peer_cancelled s) (h_closing s) (h_cancelled s))
+  | AFeed fi _ =>
+      match fi_kind fi with
+      | KCancel => Some (mkH (h_running s) (fi_seq fi :: h_peer_cancelled s) (h_closing s) (h_cancelled s))
+      | _ => Some s
+      end
+  | AHCtx h =>
+      match assocz h (h_running s) with
+      | None => Some s                              (* it has returned: cancelling its context then is harmless *)
+      | Some fi =>
+          if h_closing s then Some (mkH (h_running s) (h_peer_cancelled s) true (h :: h_cancelled s))
+          else if is_callk (fi_kind fi) && memz (fi_seq fi) (h_peer_cancelled s)
+               then Some (mkH (h_running s) (h_peer_cancelled s) (h_closing s) (h :: h_cancelled s))
+               else None                            (* cancelled for somebody else's completion or cancellation *)
+      end
+  | _ => if closing_event e then Some (mkH (h_running s) (h_peer_cancelled s) true (h_cancelled s)) else Some s
+  end.
+
+Definition h0 : hstate := mkH [] [] false [].
+
+Definition c09_only_own (tr : list aev) : bool := accepts handler_step h0 tr.
+
+(* second half, evaluated on a trace that ends at quiescence after the transport has stopped: every handler still
+   running has had its context cancelled *)
+Definition c09_close_cancels_all (tr : list aev) : bool :=
+  match run handler_step h0 tr with
+  | Some s => if h_closing s then forallb (fun p => memz (fst p) (h_cancelled s)) (h_running s) else true
+  | None => true
+  end.
+
+(* ---------- C11: close releases every goroutine and table entry ----------
+   Samples are taken at quiescence.  While the transport is open the pending table holds exactly the calls that have
+   started and not returned; once it has stopped and all handlers have returned no goroutine of the library remains. *)
+Record lstate := mkL { l_out_calls : list Z; l_handlers : list Z; l_closing : bool; l_calls : list Z }.
+
+Definition leak_step (s : lstate) (e : aev) : option lstate :=
+  match e with
+  | AStart c => Some (mkL (c :: l_out_calls s) (l_handlers s) (l_closing s) (l_calls s))
+  | ARet c _ => Some (mkL (filter (fun d => negb (d =? c)) (l_out_calls s)) (l_handlers s) (l_closing s) (l_calls s))
+  | AHStart h _ => Some (mkL (l_out_calls s) (h :: l_handlers s) (l_closing s) (l_calls s))
+  | AHRet h => Some (mkL (l_out_calls s) (filter (fun d => negb (d =? h)) (l_handlers s)) (l_closing s) (l_calls s))
+  | ASample pending goroutines done connected errnil =>
+      if done then
+        (* stopped: with every handler returned and every API call returned nothing of the library may be left *)
+        match l_handlers s, l_out_calls s with
+        | [], [] => if goroutines =? 0 then Some s else None
+        | _, _ => Some s
+        end
+      else
+        (* open: the table holds only outstanding calls (notifications never enter it) *)
+        if pending <=? Z.of_nat (length (filter (fun c => memz c (l_calls s)) (l_out_calls s))) then Some s else None
+  | _ => if closing_event e then Some (mkL (l_out_calls s) (l_handlers s) true (l_calls s)) else Some s
+  end.
+
+(* [calls]: the nonces of the operations that are calls (the others are notifications) *)
+Definition c11_pred (calls : list Z) (tr : list aev) : bool := accepts leak_step (mkL [] [] false calls) tr.
